@@ -67,6 +67,9 @@ type Attr struct {
 	Default  any         `json:"default,omitempty"`
 	HasDef   bool        `json:"has_default,omitempty"`
 	Val      *Validation `json:"validation,omitempty"`
+	// DefFromAlias: Default/HasDef repeat the default declared ON the attribute's alias type (Type("Tier", String,
+	// func() { Default("basic") })); the attribute itself declares none
+	DefFromAlias bool `json:"default_from_alias,omitempty"`
 	View     string      `json:"view,omitempty"` // result-type attribute rendered with this view
 	Sec      string      `json:"sec,omitempty"`  // username | password | apikey:<scheme> | token | accesstoken
 	Inherited bool       `json:"inherited,omitempty"` // comes from the extended type (not re-declared in the DSL)
@@ -103,6 +106,7 @@ type UserType struct {
 	Attr       *Attr   `json:"attr"` // Type.Kind object (or alias of a primitive)
 	IsResult   bool    `json:"is_result,omitempty"`
 	IsError    bool    `json:"is_error,omitempty"` // only used as the type of declared errors
+	NoReuse    bool    `json:"no_reuse,omitempty"` // never picked as the type of another attribute
 	Identifier string  `json:"identifier,omitempty"`
 	Views      []*View `json:"views,omitempty"`
 }
